@@ -710,9 +710,6 @@ def finding_key(case, run):
     multi_obj = case['objective']['multi']
     init_invalid = obs['metric_in'][0] == 'I'
     if iopt_all_trials_invalid(case, run):
-        if multi_obj and case['objective'].get('fail'):
-            return ('C19.multiobj-invalid-tuned-raises',
-                    'IOptTuner, multi-objective, objective valid on the input but invalid on the tuned assignments')
         return ('C19.iopt-all-trials-invalid',
                 'IOptTuner: every point iOpt evaluated is invalid, iOpt hands back its shared default solution '
                 '(AttributeError in a fresh process, a stale point of an earlier run otherwise)')
@@ -726,9 +723,6 @@ def finding_key(case, run):
         floats = [(n, p, s) for n in case['graph'] for p, s in sspec.get(n['name'], {}).items() if TYPE[s[0]] == 'continuous']
         if not floats:
             return 'C19.iopt-no-float-raises', 'IOptTuner without a continuous parameter: iOpt refuses the problem'
-        if multi_obj and case['objective'].get('fail'):
-            return ('C19.multiobj-invalid-tuned-raises',
-                    'IOptTuner, multi-objective: a graph of the front on which the objective is invalid yields a scalar metric that is iterated')
     return None, None
 
 
@@ -862,4 +856,4 @@ def replay(ctx, payload):
         return
     case = {k: case[k] for k in ('space', 'graph', 'objective', 'tuner')}
     # the libraries draw from OS entropy: repeat the configuration a few times
-    evaluate_cases(ctx, 'replay', [deepcopy(case) for _ in range(5)])
+    evaluate_cases(ctx, 'replay', [deepcopy(case) for _ in range(int(payload.get('repeat', 5)))])
